@@ -122,15 +122,15 @@ func allRouters() []*routerFx {
 	add := func(r *routerFx) { rs = append(rs, r) }
 
 	// ---- eth: any eth.Header JSON
-	add(&routerFx{name: "eth", router: utils.ETH_ROUTER, chainID: 2, genesis: func(v string) []byte {
-		return mustJSON(polyEthHeader(1000, v, []byte("verif-"+v), ecommon.Address{1}, 1000000))
+	add(&routerFx{name: "eth", router: utils.ETH_ROUTER, chainID: 2, syncer: ethSync, genesis: func(v string) []byte {
+		return mustJSON(ethGenesis(v))
 	}})
 
 	// ---- bsc-like PoSA routers with go-ethereum headers (bsc, bytom)
-	add(&routerFx{name: "bsc", router: utils.BSC_ROUTER, chainID: 6, extra: mustJSON(&bsc.ExtraInfo{ChainID: evmChainID}),
+	add(&routerFx{name: "bsc", router: utils.BSC_ROUTER, chainID: 6, extra: mustJSON(&bsc.ExtraInfo{ChainID: evmChainID}), syncer: bscSync,
 		genesis: func(v string) []byte {
 			_, addrs := evmKeys("bsc/"+v, 3)
-			g := gethHeader(200, v, posaExtra(addrs), addrs[200%3])
+			g := bscGenesis(v)
 			return mustJSON(&bsc.GenesisHeader{Header: *g, PrevValidators: []bsc.HeightAndValidators{{Height: big.NewInt(0), Validators: addrs}}})
 		}})
 	add(&routerFx{name: "bytom", router: utils.BYTOM_ROUTER, chainID: 22, extra: mustJSON(&bytom.ExtraInfo{ChainID: evmChainID}),
@@ -178,9 +178,9 @@ func allRouters() []*routerFx {
 			return mustJSON(&polygon.HeaderWithOptionalSnap{Header: *g, Snapshot: snap})
 		}})
 	// ---- tendermint family: amino-encoded header; the epoch-switch record keeps height, hashes and chain id
-	add(&routerFx{name: "cosmos", router: utils.COSMOS_ROUTER, chainID: 5, genesis: func(v string) []byte {
-		hdr := tmtypes.Header{ChainID: "verif-cosmos", Height: int64(100 * vnum(v)), Time: time.Unix(int64(baseTime), 0).UTC(),
-			ValidatorsHash: newDet("cosmos/vh/" + v).Bytes(32), NextValidatorsHash: newDet("cosmos/nvh/" + v).Bytes(32)}
+	add(&routerFx{name: "cosmos", router: utils.COSMOS_ROUTER, chainID: 5, syncer: cosmosSync, genesis: func(v string) []byte {
+		hdr := tmtypes.Header{ChainID: "verif-cosmos", Height: cosmosGenesisHeight(v), Time: time.Unix(int64(baseTime), 0).UTC(),
+			ValidatorsHash: newDet("cosmos/vh/" + v).Bytes(32), NextValidatorsHash: cosmosSetHash(v, 0)}
 		hdr.Version.Block = 10
 		b, err := cosmos.Cdc.MarshalBinaryBare(&cosmos.CosmosHeader{Header: hdr, Commit: &tmtypes.Commit{}, Valsets: nil})
 		if err != nil {
@@ -208,7 +208,7 @@ func allRouters() []*routerFx {
 		return b
 	}})
 	// ---- ont: header whose consensus payload names the validator set
-	add(&routerFx{name: "ont", router: utils.ONT_ROUTER, chainID: 3, genesis: func(v string) []byte {
+	add(&routerFx{name: "ont", router: utils.ONT_ROUTER, chainID: 3, syncer: ontSync, genesis: func(v string) []byte {
 		cfg := &vconfig.ChainConfig{}
 		for i, a := range detAccounts("ontval/"+v, 4) {
 			cfg.Peers = append(cfg.Peers, &vconfig.PeerConfig{Index: uint32(i + 1), ID: vconfig.PubkeyID(a.PublicKey)})
